@@ -2,11 +2,14 @@
    A message is described by layout predicates in the style of C02
    (QuestionsAt / RecordsAt: a question / a record with a given type is stored
    at a position, and every octet the reader touches lies in the body
-   [12, end), never in the header); the name reader facts come from C11/Frame.v. *)
+   [12, end), never in the header); the name reader facts are C01's (parse accepts => skip accepts) and C02's
+   (NameIn: a possibly compressed name stored at a position is what the reader
+   reconstructs; stable under appending octets). *)
 From Coq Require Import NArith List Bool Lia ZArith.
 From Coq Require Import ZifyN ZifyBool ZifyNat.
 From DV Require Import Base.Outcome Base.Bytes Base.Names Base.PName.
-From DV Require Import C11.Gen C11.Model C11.Proofs C11.Proofs2 C11.Frame.
+From DV Require Import C01.Proofs C01.Proofs3 C02.ProofsBasic C02.ProofsName C02.ProofsComp C02.ProofsTop.
+From DV Require Import C11.Gen C11.Model C11.Proofs C11.Proofs2.
 Import ListNotations.
 Local Open Scope N_scope.
 Ltac Zify.zify_post_hook ::= Z.div_mod_to_equations.
